@@ -76,8 +76,44 @@ def value_in_scope(te, fn, names, self_attrs=True):
     return None
 
 
+def own_value(te, fn, P, expr, depth=0):
+    """the expression denotes the caller's own context value for P: the name P itself, self.P, a resolver call on P,
+    or X.P for a local X that was constructed with P=<own value>"""
+    if depth > 3:
+        return False
+    t = ast.unparse(expr)
+    if t == P or t in ('self.' + P, 'self.element.' + P):
+        return True
+    if isinstance(expr, ast.Call) and expr.args and own_value(te, fn, P, expr.args[0], depth + 1) and \
+            ast.unparse(expr.func).startswith('_get_'):
+        return True
+    if isinstance(expr, ast.Attribute) and expr.attr == P and isinstance(expr.value, ast.Name):
+        x = expr.value.id
+        if x in fn.params:
+            return True       # context carried by an object handed to the caller
+        for n in own_nodes(fn.node):
+            if isinstance(n, ast.Assign) and any(isinstance(tg, ast.Name) and tg.id == x for tg in n.targets) and \
+                    isinstance(n.value, ast.Call):
+                for tgt in te.resolve_call(n.value, fn):
+                    if tgt.kind == 'func':
+                        b, _, _, kws = te.bind(n.value, tgt)
+                        if P in b and own_value(te, fn, P, b[P], depth + 1):
+                            return True
+        return False
+    if isinstance(expr, ast.Name):
+        # a local resolved from the own value
+        for n in own_nodes(fn.node):
+            if isinstance(n, ast.Assign) and any(isinstance(tg, ast.Name) and tg.id == expr.id for tg in n.targets):
+                if own_value(te, fn, P, n.value, depth + 1):
+                    return True
+        return False
+    if isinstance(expr, ast.IfExp):
+        return own_value(te, fn, P, expr.body, depth + 1) or own_value(te, fn, P, expr.orelse, depth + 1)
+    return False
+
+
 def check_forwarding(chk, c, rule, params, scope_names=None, exempt=None, only_callers=None, only_callees=None,
-                     self_attrs=True):
+                     self_attrs=True, check_own=False):
     """emit one obligation per (call site, callee, P).  exempt: {(caller fq, callee name, P): reason}"""
     te, cg = c.te, c.cg
     exempt = exempt or {}
@@ -118,6 +154,17 @@ def check_forwarding(chk, c, rule, params, scope_names=None, exempt=None, only_c
                     fkey = '%s|%s|%s|%s' % (rule, fq, t.func.qualname, P)
                     if bctx:
                         fkey += '|under ' + bctx
+                    if P in b and sc == 'name' and check_own and P in (s.fn.params + s.fn.kwonly) and \
+                            not own_value(te, s.fn, P, b[P]):
+                        ek2 = (fq, t.func.name if t.func.name != '__init__' else t.func.cls.name, P)
+                        if ek2 in exempt or (ek2[0], '*', ek2[2]) in exempt:
+                            chk.ok(rule, construct, 'exempt (imprecise candidate)', where, key=fkey + '|' + s.label)
+                            continue
+                        chk.fail(rule, construct,
+                                 'the call passes `%s` for %s, which is not the %s the caller was given: the callee works with a '
+                                 'different context than the rest of the operation' % (ast.unparse(b[P])[:50], P, P), where,
+                                 key=fkey + '|foreign ' + ast.unparse(b[P])[:40])
+                        continue
                     if P in b or P in kk or stars:
                         chk.ok(rule, construct, '', where, key=fkey + '|' + s.label)
                         continue
